@@ -127,7 +127,7 @@ def main():
                 nontriv.add(json.dumps(cases[i], sort_keys=True))
         except Exception:
             pass
-    samples = [{"case": cases[i], "impl": outs[i], "model": model[i] if model else None}
+    samples = [C.abbrev({"case": cases[i], "impl": outs[i], "model": model[i] if model else None})
                for i in range(min(2, len(outs)))]
     coverage = {
         "obligations": proof["obligations"], "discharged": proof["discharged"],
